@@ -72,7 +72,7 @@ struct Baseline {
 fn baseline(content: &Content, template: &Template) -> Baseline {
     let (nx, ctl) = Nx::open_gated(content);
     let now = dump::elements(&nx, None);
-    let spec = dump::spec_from(&nx, &now);
+    let spec = dump::spec_from(&nx, &now, dump::Window::ALL);
     let before = dump::dump(&nx, &spec, Some(now));
     let from = ctl.journal_len();
     let (_, outcome) = nx.exec(&stmt(&nx, template));
